@@ -111,12 +111,22 @@ def readChunk (r : Reader) (is : IStream) : Res Unit × Reader × IStream :=
       let (c, is2) := if chunkKeepEvalsPeek then is1.peek else (none, is1)
       (.ok (), { s := s', bufidx := bufidx', keep := chunkKeep c is2.eof }, is2)
 
-/-- `read_single` on the window `[begin, bufend)` of `s`; offsets are relative to `s.data()`. -/
+/-- `read_single` on the window `[begin, bufend)` of `s`; offsets are relative to `s.data()`.
+    `rej`: the statement `if (bufbegin != bufend && *bufbegin == '-') throw read_error(…)` after the skipped
+    `+` is present (the translator checks the exact statement and reports it as `singleRejectsPlusMinus`). -/
+def readSingleG {V : Type} (rej : Bool) (P : List Char → Option (V × Nat)) (s : List Char)
+    (bufbegin bufend : Nat) : Option (V × Nat) :=
+  let skip := singleSkipPlus bufbegin bufend (s.getD bufbegin ' ')
+  let b := if skip then bufbegin + 1 else bufbegin
+  if skip && (rej && (b != bufend && s.getD b ' ' == '-')) then none
+  else
+    let r := P ((s.take bufend).drop b)
+    if singleFails r.isSome then none else r.map fun (v, n) => (v, b + n)
+
+/-- `read_single` as csv.tpp has it now -/
 def readSingle {V : Type} (P : List Char → Option (V × Nat)) (s : List Char) (bufbegin bufend : Nat) :
     Option (V × Nat) :=
-  let b := if singleSkipPlus bufbegin bufend (s.getD bufbegin ' ') then bufbegin + 1 else bufbegin
-  let r := P ((s.take bufend).drop b)
-  if singleFails r.isSome then none else r.map fun (v, n) => (v, b + n)
+  readSingleG singleRejectsPlusMinus P s bufbegin bufend
 
 /-- second half of `read`: parse one number from the window, check the separator, shift. -/
 def readParse {V : Type} (P : List Char → Option (V × Nat)) (r1 : Reader) (sep : Char) :
